@@ -655,6 +655,7 @@ func init() {
 		}
 		return out
 	}
+	dslWorkerEnter()
 }
 
 // ---------------------------------------------------------------- generators
@@ -1069,6 +1070,80 @@ func mutate(r *Rng, s string) string {
 	return string(b)
 }
 
+// dslRangeTemplates: every place of the language where a glyph list is read; %s is replaced by
+// a glyph range (or, sometimes, a plain glyph).
+var dslRangeTemplates = []string{
+	"GSUB1: %s -> %s", "GSUB1: -marks %s -> %s, %s -> A", "GSUB2: A -> %s", "GSUB2: %s -> B %s", "GSUB3: A -> [%s]", "GSUB3: %s -> [B %s]",
+	"GSUB4: %s -> B", "GSUB4: A %s -> %s", "GPOS1: [%s] -> x+1", "GPOS1: %s -> x+1 || [%s] -> dy-2", "GPOS2: %s -> x+1 & _",
+	"GPOS2: /%s/ first %s; second %s;\n _, _; _, x+1;", "GPOS2: /%s/ first A, %s; second , %s;\n _, _, _; _, _, _; _, _, x+1;",
+	"GPOS3: %s: 1,2 to 3,4", "GPOS3:\n\tA: 1,2 to 3,4;\n\t%s: 0,0 to 0,0", "GPOS4: mark %s: 0@1,2; base %s: @3,4", "GPOS4: mark A: 0@1,2; base %s: @3,4;",
+	"GSUB5: %s -> 1@0", "GSUB5: A %s -> 1@0, %s -> ", "GSUB5: class :c: = [%s]\n\t/%s/ :c: :: -> 1@0", "GSUB5: [%s] [%s] -> 0@0 1@1",
+	"GSUB6: %s | %s | %s -> 1@0", "GSUB6: | A %s | -> 1@0, %s | B | %s -> ", "GSUB6: [%s] | [%s] | [%s] -> 1@0", "GSUB6: | [%s] | -> 0@0",
+	"GSUB6: backtrackclass :b: = [%s]\n\tinputclass :i: = [%s]\n\tlookaheadclass :l: = [%s]\n\t/%s/ :b: | :i: | :l: -> 1@0",
+	"GPOS7: %s -> 1@0 || [%s] -> 0@0", "GPOS7: class :c: = [%s] /%s/ :c: -> 2@0", "GPOS8: %s | %s | -> 1@0", "GPOS8: [%s] | [%s] | -> 1@0",
+}
+
+// glyphSpell writes glyph g of the font by number, by name, or (glyph 0) as `.notdef`.
+func glyphSpell(r *Rng, d dslFont, g int) string {
+	if d.names != nil && g < len(d.names) && d.names[g] != "" && r.Chance(2, 3) {
+		return d.names[g]
+	}
+	if g == 0 && r.Chance(1, 4) {
+		return ".notdef"
+	}
+	return strconv.Itoa(g)
+}
+
+// genRange writes a glyph range: ascending, descending or of one element; the end points favour
+// 0, 1 and n-1; the hyphen with and without spaces (without, `3-1` is lexed as 3 and -1).
+func genRange(r *Rng, d dslFont) (string, string) {
+	ends := []int{0, 0, 1, 1, d.n - 1, d.n - 1, d.n - 2, d.n / 2, r.Intn(d.n), d.n}
+	a, b := Pick(r, ends), Pick(r, ends)
+	if a < 0 {
+		a = 0
+	}
+	if b < 0 {
+		b = 0
+	}
+	if r.Chance(1, 8) {
+		b = a
+	}
+	kind := "ascending"
+	switch {
+	case a == b:
+		kind = "one element"
+	case a > b:
+		kind = "descending"
+		if b == 0 {
+			kind = "descending to glyph 0"
+		}
+	}
+	sep := Pick(r, []string{" - ", " - ", " - ", "-", " -", "- ", " - - "})
+	s := glyphSpell(r, d, a) + sep + glyphSpell(r, d, b)
+	if r.Chance(1, 10) {
+		s += " - " + glyphSpell(r, d, Pick(r, ends)%max(d.n, 1))
+	}
+	return s, kind
+}
+
+// genRangeText fills a template with ranges.
+func genRangeText(c *Ctx, d dslFont) string {
+	r := c.Rng
+	t := Pick(r, dslRangeTemplates)
+	for strings.Contains(t, "%s") {
+		var rep string
+		if r.Chance(3, 4) {
+			var kind string
+			rep, kind = genRange(r, d)
+			c.Stat("range.kind", kind)
+		} else {
+			rep = glyphSpell(r, d, r.Intn(d.n))
+		}
+		t = strings.Replace(t, "%s", rep, 1)
+	}
+	return t
+}
+
 func randText(r *Rng) string {
 	var sb strings.Builder
 	for k := r.Range(0, 14); k > 0; k-- {
@@ -1186,7 +1261,13 @@ func areaDsl(c *Ctx) {
 			}
 			var t string
 			pool := append(append(append([]string{}, dslSnippets...), dslGposSnippets...), dslCtxSnippets...)
-			switch r.Intn(3) {
+			switch r.Intn(4) {
+			case 3:
+				t = genRangeText(c, d)
+				if r.Chance(1, 4) {
+					t += "\n" + genRangeText(c, d)
+				}
+				c.Stat("parse.text", "glyph ranges")
 			case 0:
 				t = Pick(r, pool)
 				if r.Bool() {
@@ -1247,6 +1328,13 @@ func areaDsl(c *Ctx) {
 			}
 			if r.Chance(1, 6) {
 				t = randText(r)
+			}
+			if r.Chance(1, 3) {
+				if r.Bool() {
+					d = genFont(c)
+				}
+				t = genRangeText(c, d)
+				c.Stat("total.text", "glyph ranges")
 			}
 			out := c.Case(Direct, "dsl.total", d.args()+" text="+hx([]byte(t)), true)
 			c.Stat("total.outcome", strings.SplitN(out, ":", 2)[0])
